@@ -40,7 +40,7 @@ MUST_ABSTRACT = [
 
 class Query:
     def __init__(self, name, src, func, defs=(), unwind=None, unwindset=(), flags=(), solver="kissat",
-                 timeout=600, tier="quick", mem_gb=6, allow=(), nondet_static=False, instrument=(),
+                 timeout=600, tier="quick", mem_gb=3, allow=(), nondet_static=False, instrument=(),
                  desc="", kind="cbmc", pyfunc=None, cover_tag=None, bounds="", expect_fail=()):
         self.name = name            # unique within the property
         self.src = src              # path relative to /verif/harness
